@@ -72,6 +72,9 @@ func schemaTypes() []string {
 
 // randomEncoding produces a valid encoding of a random datum of the schema
 // (independent writer: random block compositions, occasional extreme longs).
+// encSmallInts: when set, randomEncoding draws longs that fit every Go integer width
+var encSmallInts bool
+
 func randomEncoding(rng *rand.Rand, s node, depth int) []byte {
 	kids := nodeKids(s)
 	var b []byte
@@ -140,6 +143,9 @@ func randomEncoding(rng *rand.Rand, s node, depth int) []byte {
 }
 
 func extremeLong(rng *rand.Rand) int64 {
+	if encSmallInts {
+		return int64(int16(genInt(rng, 16)))
+	}
 	switch rng.Intn(6) {
 	case 0:
 		return []int64{math.MaxInt64, math.MinInt64, math.MaxInt32 + 1, math.MinInt32 - 1, 32768, -32769, 128, -129, 1 << 40}[rng.Intn(9)]
